@@ -4943,6 +4943,14 @@ func (t *Terminal) Loop() error {
 				}
 			}
 		}
+		reqHeaderVisibility := func() {
+			// The header may live in a window of its own that has to come or go
+			if (t.headerWindow != nil) != t.hasHeaderWindow() || (t.headerLinesWindow != nil) != t.hasHeaderLinesWindow() {
+				req(reqFullRedraw)
+			} else {
+				req(reqList, reqInfo, reqPrompt, reqHeader)
+			}
+		}
 		updatePreviewWindow := func(forcePreview bool) {
 			t.resizeWindows(forcePreview, false)
 			req(reqPrompt, reqList, reqInfo, reqHeader)
@@ -5654,15 +5662,15 @@ func (t *Terminal) Loop() error {
 				t.headerVisible = true
 				// In reverse-list layout the rows of the list move with the header
 				t.forceRerenderList()
-				req(reqList, reqInfo, reqPrompt, reqHeader)
+				reqHeaderVisibility()
 			case actHideHeader:
 				t.headerVisible = false
 				t.forceRerenderList()
-				req(reqList, reqInfo, reqPrompt, reqHeader)
+				reqHeaderVisibility()
 			case actToggleHeader:
 				t.headerVisible = !t.headerVisible
 				t.forceRerenderList()
-				req(reqList, reqInfo, reqPrompt, reqHeader)
+				reqHeaderVisibility()
 			case actToggleWrap:
 				t.wrap = !t.wrap
 				t.clearNumLinesCache()
